@@ -82,20 +82,20 @@ const NumFixed = 2
 
 // Plan of one scenario: a pure function of (seed, k).
 type Plan struct {
-	K        int
-	Seed     int64
-	Fixed    string `json:",omitempty"`
-	State    string
-	ChainLen int
-	Preset   int
-	HdrBatch int      // headers per `headers` message served
-	Peers    []string // peer kinds; Peers[0] is honest and is the first the client reaches
-	ConnCap  int      // per-direction connection buffer (0 = unbounded)
-	Persist  bool     // PersistToDisk (filter batch writer running)
-	BlockCache uint64 `json:",omitempty"` // block cache size in bytes (0 = default)
-	Inflight []string // call kinds started before Stop
-	NCalls   int      // how many GetBlock / GetCFilter / GetUtxo calls each
-	KTh      int      // the k-th message / pause-point hit triggers Stop
+	K          int
+	Seed       int64
+	Fixed      string `json:",omitempty"`
+	State      string
+	ChainLen   int
+	Preset     int
+	HdrBatch   int      // headers per `headers` message served
+	Peers      []string // peer kinds; Peers[0] is honest and is the first the client reaches
+	ConnCap    int      // per-direction connection buffer (0 = unbounded)
+	Persist    bool     // PersistToDisk (filter batch writer running)
+	BlockCache uint64   `json:",omitempty"` // block cache size in bytes (0 = default)
+	Inflight   []string // call kinds started before Stop
+	NCalls     int      // how many GetBlock / GetCFilter / GetUtxo calls each
+	KTh        int      // the k-th message / pause-point hit triggers Stop
 	// StopDelayMs is slept between the trigger and calling Stop; ReleaseMs is
 	// how long after CALLING Stop a parked pause point is released.
 	StopDelayMs int
@@ -336,7 +336,7 @@ func PlanFromSeed(seed int64, k int) Plan {
 			p.ConnCap = []int{256, 1024, 4096}[r.Intn(3)]
 		}
 	case StNoPeers:
-		p.Inflight = any(1, CGetBlock, CGetCF, CSendTx, CSubRead, CRescanErr)
+		p.Inflight = any(1, CGetBlock, CGetCF, CGetUtxo, CSendTx, CSubRead, CRescanErr)
 	case ptPrefix + PtNtfnTip:
 		p.Inflight = []string{CSubscribe}
 	default:
